@@ -123,9 +123,7 @@ def job_surface(ltype, static, incomp):
         results.append(discharge(Obligation('%s, solution type %d: writes only its own output slot and depends on no other type\'s boundary values' % (tag, ytype_i),
                                             z3.BoolVal(ok_slots and not foreign), [], with_axioms=False, with_dens=False,
                                             replay=lambda md, w_=written, f_=foreign: (True, 'slots written %r, foreign boundary values %r' % (w_, f_)), key='surface:independent:%s' % kname(ltype, static))))
-        so = z3.Solver()
-        so.add(A)
-        results.append({'name': '%s type %d [reachability twin]' % (tag, ytype_i), 'key': 'twin', 'twin': True, 'verdict': str(so.check()), 'solver_s': 0.0, 'info': {}})
+        results.append({'name': '%s type %d [reachability twin]' % (tag, ytype_i), 'key': 'twin', 'twin': True, 'verdict': solve.sat_check(A, 30000), 'solver_s': 0.0, 'info': {}})
     return {'results': results, 'encoded': loader.ENCODED, 'axioms': CTX.axiom_notes + ['zgesv contract: A x = b (column-major), info = 0'], 'label': tag}
 
 
